@@ -33,10 +33,24 @@ def seed():
 _scratch = None
 
 
+def _sweep_stale(max_age=12 * 3600):
+    """Scratch directories of runs that were killed before they could clean up."""
+    import glob
+    import time
+    now = time.time()
+    for d in glob.glob(os.path.join(tempfile.gettempdir(), 'verif-*')):
+        try:
+            if now - os.path.getmtime(d) > max_age:
+                shutil.rmtree(d, ignore_errors=True)
+        except OSError:
+            pass
+
+
 def scratch():
     """A private scratch directory outside /repo and /verif, removed at exit."""
     global _scratch
     if _scratch is None:
+        _sweep_stale()
         _scratch = tempfile.mkdtemp(prefix='verif-')
         if not os.environ.get('VERIF_KEEP_SCRATCH'):
             atexit.register(shutil.rmtree, _scratch, True)
